@@ -143,6 +143,10 @@ def program(r, nfunc=3, size=18, cpp=False):
            "enum color { RED, GREEN = 3, BLUE%s };" % r.choice(["", ","]),
            "struct pt { int x; int y; };",
            "static int g0, g1 = 2, g2;", "static int arr[4];", "static unsigned int gu; static short int gs; static long gl;"]
+    # every spelling of the integer types, with storage and cv keywords in every position (the mod_*_int options rewrite them)
+    out += ["static unsigned const char uc1 = 1; static long const double ld1 = 1.0; static double const long ld2 = 2.0; static char volatile unsigned cv1;",
+            "static unsigned const long ucl = 3; static const short int csi = 4; static long unsigned int lui; static signed char sc1; static long long ll1;",
+            "static volatile unsigned vu1; static short const unsigned scu = 5; static long double ld3; static unsigned char uc2;"]
     out += ["int %s(int a);" % f for f in FUNCS]
     out += ["#define SQR(x) ((x) * (x))", "#define ADD(a, b) \\", "    ((a) + \\", "     (b))", ""]
     if cpp:
